@@ -1,11 +1,11 @@
 #!/bin/bash
-# usage: tools/confirm_seed.sh <ID> <k> <pkgdir>   (checker self-test helper, not a registered check)
+# usage: tools/confirm_seed.sh <ID> <k> <pkgdir> [store-as-k]   (checker self-test helper, not a registered check)
 # Confirms a sub-agent's seeded change in the scratch worktree /tmp/wt-<ID>:
 #  demo passes without the patch; with the patch: build ok, existing suite passes (except TestCgroupAll), demo fails.
 # On success stores it as /verif/seeded/<ID>-<k>/ {patch.diff, demo_test.go, notes.md, meta.json}.
 set -u
 . /verif/tools/env.sh; unset CGO_ENABLED
-id=$1; k=$2; pkg=$3
+id=$1; k=$2; pkg=$3; dk=${4:-$k}   # dk: number under which the seed is stored (round 2 uses 4..6)
 src=/tmp/mut-out/$id/$k; wt=/tmp/wt-$id
 cd $wt || exit 2
 git checkout -q -- . ; git clean -fdq
@@ -20,10 +20,10 @@ suite=$(go test -vet=off -count=1 ./... 2>&1 | grep -E '^(FAIL|---)' | grep -v '
 git checkout -q -- . ; git clean -fdq
 echo "demo-without exit=$r0 build=$rb demo-with exit=$r1 suite-extra-failures='$suite'"
 if [ $r0 -eq 0 ] && [ $rb -eq 0 ] && [ $r1 -ne 0 ] && [ -z "$suite" ]; then
-  d=/verif/seeded/$id-$k; mkdir -p $d
+  d=/verif/seeded/$id-$dk; mkdir -p $d
   cp $src/patch.diff $src/demo_test.go $src/notes.md $d/
   tail -5 /tmp/seed-$id-$k-with.txt > $d/demo_with_patch.txt
-  python3 - "$id" "$k" "$pkg" "$tests" <<'PY'
+  python3 - "$id" "$dk" "$pkg" "$tests" <<'PY'
 import json,sys
 id,k,pkg,tests=sys.argv[1:5]
 notes=open(f'/verif/seeded/{id}-{k}/notes.md').read()
